@@ -142,6 +142,8 @@ def scenarios(tier):
     out.append(_scen('clamp-A6-d1', {'A': [s6], 'B': []}, dev_bound=1, tx_init={'A': 64, 'B': 64}, weight=10))
     # small stream chunks: every message straddles several writes without any deviation
     out.append(_scen('chunk5-A3', {'A': [s3], 'B': []}, dev_bound=0, chunk=5, weight=40))
+    # the same with traffic both ways: acknowledgements are generated while a segment is half written
+    out.append(_scen('chunk9-A1|B1', {'A': [s1], 'B': [s1b]}, dev_bound=0, chunk=9, weight=60))
     out.append(dict(name='many-transfers', kind='enum', runner='run_many', params=dict(name='many-transfers'), weight=30))
     if thorough:
         out.append(shape(3, 1, 1))
